@@ -239,12 +239,13 @@ type c14Conn struct {
 	Name    string
 	Kind    string // udp, tcp-est, tcp-syn, tcp-fin, tcp-rst, icmp, nat-udp, nat-tcp
 	Timeout time.Duration
-	Key     Key // normal key or reverse (tracking) key
-	FwdKey  Key // NAT only
+	Key     KeyInterface // normal key or reverse (tracking) key
+	FwdKey  KeyInterface // NAT only
 	NAT     bool
 }
 
 type c14World struct {
+	ver     int
 	clock   *c14Clock
 	ct      *c14Map
 	ccq     *c14Map
@@ -270,6 +271,14 @@ type c14World struct {
 
 type c14Fail struct{ Key, Msg string }
 
+// fam suffixes violation keys of the IPv6 instance (same oracle, different code paths in the scanner helpers).
+func (w *c14World) fam() string {
+	if w.ver == 6 {
+		return ":ipv6"
+	}
+	return ""
+}
+
 func (w *c14World) keyName(k []byte) string {
 	if n, ok := w.names[string(k)]; ok {
 		return n
@@ -282,7 +291,7 @@ func c14TCPLeg(syn, ack, fin, rst bool) Leg {
 }
 
 // value builders for each kind
-func (w *c14World) newValue(c *c14Conn, lastSeen time.Duration, fwd bool) Value {
+func (w *c14World) newValue(c *c14Conn, lastSeen time.Duration, fwd bool) []byte {
 	est := c14TCPLeg(true, true, false, false)
 	var a, b Leg
 	switch c.Kind {
@@ -297,18 +306,27 @@ func (w *c14World) newValue(c *c14Conn, lastSeen time.Duration, fwd bool) Value 
 	default:
 		a, b = Leg{Approved: true, Opener: true}, Leg{Approved: true}
 	}
+	if w.ver == 6 {
+		switch {
+		case c.NAT && fwd:
+			return NewValueV6NATForward(lastSeen, 0, c.Key.(KeyV6)).AsBytes()
+		case c.NAT:
+			return NewValueV6NATReverse(lastSeen, 0, a, b, net.IPv4(0, 0, 0, 0), net.IPv4(10, 96, 0, 10), 80).AsBytes()
+		}
+		return NewValueV6Normal(lastSeen, 0, a, b).AsBytes()
+	}
 	if c.NAT {
 		if fwd {
-			return NewValueNATForward(lastSeen, 0, c.Key)
+			return NewValueNATForward(lastSeen, 0, c.Key.(Key)).AsBytes()
 		}
-		return NewValueNATReverse(lastSeen, 0, a, b, net.IPv4(0, 0, 0, 0), net.IPv4(10, 96, 0, 10), 80)
+		return NewValueNATReverse(lastSeen, 0, a, b, net.IPv4(0, 0, 0, 0), net.IPv4(10, 96, 0, 10), 80).AsBytes()
 	}
-	return NewValueNormal(lastSeen, 0, a, b)
+	return NewValueNormal(lastSeen, 0, a, b).AsBytes()
 }
 
-func (w *c14World) put(k Key, v Value) { w.ct.m.Update(k.AsBytes(), v.AsBytes(), 0) }
+func (w *c14World) put(k KeyInterface, v []byte) { w.ct.m.Update(k.AsBytes(), v, 0) }
 
-func (w *c14World) lastSeen(k Key) (time.Duration, bool) {
+func (w *c14World) lastSeen(k KeyInterface) (time.Duration, bool) {
 	v, ok := w.ct.m.Lookup(k.AsBytes())
 	if !ok {
 		return 0, false
@@ -316,7 +334,7 @@ func (w *c14World) lastSeen(k Key) (time.Duration, bool) {
 	return time.Duration(binary.LittleEndian.Uint64(v[8:16])), true
 }
 
-func (w *c14World) touch(k Key) {
+func (w *c14World) touch(k KeyInterface) {
 	if v, ok := w.ct.m.Lookup(k.AsBytes()); ok {
 		binary.LittleEndian.PutUint64(v[8:16], uint64(w.clock.now))
 	}
@@ -349,7 +367,7 @@ func (w *c14World) onDelete(who string, k []byte) {
 		ls := time.Duration(binary.LittleEndian.Uint64(v[8:16]))
 		if age := now - ls; age <= conn.Timeout {
 			w.fails = append(w.fails, c14Fail{
-				Key: "C14:live-entry-removed:" + conn.Kind,
+				Key: "C14:live-entry-removed:" + conn.Kind + w.fam(),
 				Msg: fmt.Sprintf("%s deleted %s (%s) although its last_seen=%v is only %v old at now=%v (timeout %v): it carried traffic after it was judged, or was never expired", who, name, conn.Kind, ls, age, now, conn.Timeout),
 			})
 		}
@@ -358,25 +376,45 @@ func (w *c14World) onDelete(who string, k []byte) {
 	// forward entry of a NAT pair: liveness of the pair is tracked on the reverse entry
 	if rls, ok := w.lastSeen(conn.Key); ok {
 		if age := now - rls; age <= conn.Timeout {
+			// which shape of cleanup-queue entry led here (the entry being processed is still queued)
+			how := "not-queued"
+			if q, ok := w.ccq.m.Lookup(k); ok {
+				how = "queued-as-pair"
+				if binary.LittleEndian.Uint32(q[0:4]) == 0 {
+					how = "queued-alone"
+				}
+			}
 			w.fails = append(w.fails, c14Fail{
-				Key: "C14:nat-forward-entry-removed-while-pair-live:" + conn.Kind,
+				Key: "C14:nat-forward-entry-removed-while-pair-live:" + how + ":" + conn.Kind + w.fam(),
 				Msg: fmt.Sprintf("%s deleted the forward entry %s while its reverse (tracking) entry is still in the map with last_seen=%v, only %v old at now=%v (timeout %v): the pair carried traffic after it was judged", who, name, rls, age, now, conn.Timeout),
 			})
 		}
 	}
 }
 
-func c14Key(proto uint8, a string, pa uint16, b string, pb uint16) Key {
+func (w *c14World) mkKey(proto uint8, a string, pa uint16, b string, pb uint16) KeyInterface {
+	if w.ver == 6 {
+		v6 := func(s string) net.IP { return net.ParseIP("fd00::" + strings.ReplaceAll(s, ".", ":")) }
+		if proto == ProtoICMP {
+			proto = ProtoICMP6
+		}
+		return NewKeyV6(proto, v6(a), pa, v6(b), pb)
+	}
 	return NewKey(proto, net.ParseIP(a).To4(), pa, net.ParseIP(b).To4(), pb)
 }
 
 var c14StartNow = 100 * time.Hour
 
 // c14NewWorld builds a fresh world. entries: conn kind + age class per connection.
-func c14NewWorld(prog *ebpf.Program, qosKey, qosVal int, spec []c14Init) *c14World {
-	w := &c14World{clock: &c14Clock{now: c14StartNow}, to: timeouts.DefaultTimeouts(), names: map[string]string{}, prog: prog}
-	w.ct = &c14Map{w: w, params: MapParams, m: ebpf.NewHashMap("cali_v4_ct", KeySize, ValueSize, 0), hooked: true}
-	w.ccq = &c14Map{w: w, params: cleanupv1.MapParams, m: ebpf.NewHashMap("cali_v4_ccq", cleanupv1.KeySize, cleanupv1.ValueSize, 0)}
+func c14NewWorld(ver int, prog *ebpf.Program, qosKey, qosVal int, spec []c14Init) *c14World {
+	w := &c14World{ver: ver, clock: &c14Clock{now: c14StartNow}, to: timeouts.DefaultTimeouts(), names: map[string]string{}, prog: prog}
+	if ver == 6 {
+		w.ct = &c14Map{w: w, params: MapParamsV6, m: ebpf.NewHashMap("cali_v6_ct", KeyV6Size, ValueV6Size, 0), hooked: true}
+		w.ccq = &c14Map{w: w, params: cleanupv1.MapParamsV6, m: ebpf.NewHashMap("cali_v6_ccq", cleanupv1.KeyV6Size, cleanupv1.ValueV6Size, 0)}
+	} else {
+		w.ct = &c14Map{w: w, params: MapParams, m: ebpf.NewHashMap("cali_v4_ct", KeySize, ValueSize, 0), hooked: true}
+		w.ccq = &c14Map{w: w, params: cleanupv1.MapParams, m: ebpf.NewHashMap("cali_v4_ccq", cleanupv1.KeySize, cleanupv1.ValueSize, 0)}
+	}
 	w.qos = ebpf.NewHashMap("cali_qos_conn", qosKey, qosVal, 0)
 	w.vm = ebpf.NewVM()
 	w.vm.Now = func() uint64 { return uint64(w.clock.now) }
@@ -409,30 +447,34 @@ func c14NewWorld(prog *ebpf.Program, qosKey, qosVal int, spec []c14Init) *c14Wor
 		return 0
 	}
 	w.live = NewLivenessScanner(w.to, false, WithTimeShim(w.clock))
-	w.scanner = NewScanner(w.ct, KeyFromBytes, ValueFromBytes, nil, "Disabled", w.ccq, 4, &c14Cleaner{w: w}, w.live)
+	if ver == 6 {
+		w.scanner = NewScanner(w.ct, KeyV6FromBytes, ValueV6FromBytes, nil, "Disabled", w.ccq, 6, &c14Cleaner{w: w}, w.live)
+	} else {
+		w.scanner = NewScanner(w.ct, KeyFromBytes, ValueFromBytes, nil, "Disabled", w.ccq, 4, &c14Cleaner{w: w}, w.live)
+	}
 	w.co = &c14Coro{}
 	for i, in := range spec {
 		c := &c14Conn{Name: fmt.Sprintf("%s#%d", in.Kind, i), Kind: in.Kind}
 		p := uint16(1000 + i)
 		switch in.Kind {
 		case "udp":
-			c.Timeout, c.Key = w.to.UDPTimeout, c14Key(ProtoUDP, "10.0.0.1", p, "10.0.0.2", 53)
+			c.Timeout, c.Key = w.to.UDPTimeout, w.mkKey(ProtoUDP, "10.0.0.1", p, "10.0.0.2", 53)
 		case "icmp":
-			c.Timeout, c.Key = w.to.ICMPTimeout, c14Key(ProtoICMP, "10.0.0.1", 0, "10.0.0.2", 0)
+			c.Timeout, c.Key = w.to.ICMPTimeout, w.mkKey(ProtoICMP, "10.0.0.1", 0, "10.0.0.2", 0)
 		case "tcp-est":
-			c.Timeout, c.Key = w.to.TCPEstablished, c14Key(ProtoTCP, "10.0.0.1", p, "10.0.0.2", 80)
+			c.Timeout, c.Key = w.to.TCPEstablished, w.mkKey(ProtoTCP, "10.0.0.1", p, "10.0.0.2", 80)
 		case "tcp-syn":
-			c.Timeout, c.Key = w.to.TCPSynSent, c14Key(ProtoTCP, "10.0.0.1", p, "10.0.0.2", 81)
+			c.Timeout, c.Key = w.to.TCPSynSent, w.mkKey(ProtoTCP, "10.0.0.1", p, "10.0.0.2", 81)
 		case "tcp-fin":
-			c.Timeout, c.Key = w.to.TCPFinsSeen, c14Key(ProtoTCP, "10.0.0.1", p, "10.0.0.2", 82)
+			c.Timeout, c.Key = w.to.TCPFinsSeen, w.mkKey(ProtoTCP, "10.0.0.1", p, "10.0.0.2", 82)
 		case "tcp-rst":
-			c.Timeout, c.Key = w.to.TCPResetSeen, c14Key(ProtoTCP, "10.0.0.1", p, "10.0.0.2", 83)
+			c.Timeout, c.Key = w.to.TCPResetSeen, w.mkKey(ProtoTCP, "10.0.0.1", p, "10.0.0.2", 83)
 		case "nat-udp":
 			c.NAT, c.Timeout = true, w.to.UDPTimeout
-			c.Key, c.FwdKey = c14Key(ProtoUDP, "10.0.0.1", p, "10.0.0.9", 5353), c14Key(ProtoUDP, "10.0.0.1", p, "10.96.0.10", 53)
+			c.Key, c.FwdKey = w.mkKey(ProtoUDP, "10.0.0.1", p, "10.0.0.9", 5353), w.mkKey(ProtoUDP, "10.0.0.1", p, "10.96.0.10", 53)
 		case "nat-tcp":
 			c.NAT, c.Timeout = true, w.to.TCPEstablished
-			c.Key, c.FwdKey = c14Key(ProtoTCP, "10.0.0.1", p, "10.0.0.9", 8080), c14Key(ProtoTCP, "10.0.0.1", p, "10.96.0.10", 80)
+			c.Key, c.FwdKey = w.mkKey(ProtoTCP, "10.0.0.1", p, "10.0.0.9", 8080), w.mkKey(ProtoTCP, "10.0.0.1", p, "10.96.0.10", 80)
 		default:
 			panic("unknown kind " + in.Kind)
 		}
